@@ -129,6 +129,21 @@ SAFE_EXT = {
     're.Pattern.search', 're.Pattern.match', 're.Pattern.fullmatch', 'sys.exc_info', 'time.monotonic',
     'typing.cast',
 }
+# total methods of the built-in text / container types (no exception for arguments of the declared types); listed so that a
+# harmless respelling (`.casefold()`, `.rstrip()`, `.union()`) is classified instead of stopping the analysis
+SAFE_EXT |= {f'builtins.str.{m}' for m in (
+    'casefold', 'title', 'capitalize', 'swapcase', 'lstrip', 'rstrip', 'splitlines', 'rsplit', 'isdigit', 'isalpha', 'isalnum',
+    'isascii', 'isspace', 'islower', 'isupper', 'isnumeric', 'isdecimal', 'isidentifier', 'isprintable', 'istitle', 'find',
+    'rfind', 'count', 'zfill', 'expandtabs', 'removeprefix', 'removesuffix')}
+SAFE_EXT |= {f'builtins.{t}.{m}' for t in ('bytes', 'bytearray') for m in (
+    'lower', 'upper', 'strip', 'lstrip', 'rstrip', 'find', 'rfind', 'count', 'replace', 'hex', 'isascii', 'isdigit', 'isalpha',
+    'isalnum', 'isspace', 'rpartition', 'partition', 'removeprefix', 'removesuffix', 'split', 'rsplit', 'splitlines', 'startswith',
+    'endswith', 'join')}
+SAFE_EXT |= {f'builtins.{t}.{m}' for t in ('set', 'frozenset') for m in (
+    'union', 'difference', 'intersection', 'symmetric_difference', 'issubset', 'issuperset', 'isdisjoint', 'copy')}
+SAFE_EXT |= {'builtins.set.intersection_update', 'builtins.set.difference_update', 'builtins.set.symmetric_difference_update',
+             'builtins.list.count', 'builtins.tuple.count', 'builtins.dict.fromkeys', 'builtins.bytearray.extend', 'builtins.bytearray.append',
+             'builtins.bytearray.clear', 'builtins.bytearray.copy'}
 RAISING_EXT: Dict[str, List[ExKey]] = {
     'builtins.list.pop': ['builtins.IndexError'],
     'builtins.list.remove': ['builtins.ValueError'],
@@ -142,6 +157,12 @@ RAISING_EXT: Dict[str, List[ExKey]] = {
     'builtins.float.__init__': ['builtins.ValueError'],
     'builtins.next': ['builtins.StopIteration'],
     'builtins.getattr': ['builtins.AttributeError'],
+    'builtins.str.index': ['builtins.ValueError'],
+    'builtins.str.rindex': ['builtins.ValueError'],
+    'builtins.bytes.index': ['builtins.ValueError'],
+    'builtins.bytes.rindex': ['builtins.ValueError'],
+    'builtins.tuple.index': ['builtins.ValueError'],
+    'builtins.bytearray.pop': ['builtins.IndexError'],
 }
 SEQ_TYPES = {'builtins.bytes', 'builtins.str', 'builtins.list', 'builtins.bytearray', 'builtins.memoryview', 'builtins.tuple', 'collections.deque'}
 MAP_TYPES = {'builtins.dict', 'collections.OrderedDict', 'collections.defaultdict'}
